@@ -39,6 +39,9 @@ func vpC02Tree(st vpC02State) *vpFS {
 	}
 	fs.addAbsent("/e/x")
 	fs.addAbsent("/e/y")
+	fs.addAbsent("/d/y/c")
+	fs.addAbsent("/e/x/c")
+	fs.addAbsent("/e/y/c")
 	return fs
 }
 
@@ -77,6 +80,12 @@ func vpWarmCaches(env *vpEnv, negOn, dirOn bool) {
 			env.nfs.ReadDir(node)
 			vpReach("child-directory-listing-cached")
 		}
+	}
+	// ... a LOOKUP miss cached below a directory that has since been removed (RMDIR does not clear
+	// the negative entries below the directory it removes)
+	if env.fs.lookup("/d/y") == nil && negOn && vpBool("negative-entry-below-vanished-y") {
+		env.nfs.attrCache.PutNegative("/d/y/c")
+		vpReach("negative-entry-below-vanished-directory")
 	}
 	// ... or the empty listing a removed directory leaves behind (REMOVE keeps it)
 	if n := env.fs.lookup("/d/x"); dirOn && n == nil && vpBool("empty-listing-of-vanished-x") {
@@ -133,7 +142,7 @@ func vpHandleCurrent(env *vpEnv, p, tag string) {
 
 // vpCoherent asserts the coherence invariant by probing the caches.
 func vpCoherent(env *vpEnv, tag string) {
-	for _, p := range []string{"/d/x", "/d/y", "/e/x", "/e/y", "/d/x/c"} {
+	for _, p := range []string{"/d/x", "/d/y", "/e/x", "/e/y", "/d/x/c", "/d/y/c", "/e/x/c", "/e/y/c"} {
 		a, hit := env.nfs.attrCache.Get(p)
 		n := env.fs.lookup(p)
 		if !hit {
